@@ -722,18 +722,22 @@ impl<K: CacheKey + 'static> AsyncCache<K> for DiskCache<K> {
         }
 
         index.clear();
-        drop(index); // Release lock early to reduce contention
-        #[cfg(feature = "verif-hooks")]
-        crate::verif_hooks::sched_point("disk.clear.after_unlock");
 
+        // The counters and the directory sweep belong to the same critical section as the
+        // index: a put that publishes its file and entry after the lock is released must
+        // not have its file swept away or its share of the counters wiped
         self.entry_count.store(0, Ordering::Relaxed);
         self.disk_usage.store(0, Ordering::Relaxed);
         self.metrics.reset();
-        #[cfg(feature = "verif-hooks")]
-        crate::verif_hooks::sched_point("disk.clear.after_counters");
 
         // Also clean up any remaining files and subdirectories
-        self.clear_directory_recursive(&self.config.cache_dir)?;
+        let swept = self.clear_directory_recursive(&self.config.cache_dir);
+        drop(index);
+        #[cfg(feature = "verif-hooks")]
+        crate::verif_hooks::sched_point("disk.clear.after_unlock");
+        #[cfg(feature = "verif-hooks")]
+        crate::verif_hooks::sched_point("disk.clear.after_counters");
+        swept?;
 
         Ok(())
     }
